@@ -225,7 +225,10 @@ MkBodies(d, x) == IF x[1] = 0 THEN <<>>
                   ELSE IF x[3] = 0 THEN <<Bd(MJson, x[2], x[1] = 2)>>
                   ELSE <<Bd(MJson, x[2], TRUE), Bd(MText, IF d = "2.0" THEN x[2] ELSE x[3], TRUE)>>      \* 2.0: one schema, two `consumes`
 Cfgs == {[allow_x00 |-> x, codec |-> c, security |-> s] : x \in BOOLEAN, c \in {"utf-8", "ascii"}, s \in BOOLEAN}
-Op(g, d, ps, bs, cf) == [kind |-> "op", group |-> g, dialect |-> d, params |-> ps, bodies |-> bs, cfg |-> cf, defs |-> NoRefDefs]
+(* the Path Item the operation (always POST) lives in: written inline or behind a local $ref, alone or next to other documented methods *)
+ItemInline == [ref |-> FALSE, also |-> <<>>]
+Items == {[ref |-> r, also |-> a] : r \in BOOLEAN, a \in {<<>>, <<"get">>, <<"get", "put">>}}
+Op(g, d, ps, bs, cf) == [kind |-> "op", group |-> g, dialect |-> d, params |-> ps, bodies |-> bs, cfg |-> cf, defs |-> NoRefDefs, item |-> ItemInline]
 Cfg0 == [allow_x00 |-> TRUE, codec |-> "utf-8", security |-> FALSE]
 None3 == <<0, 0, 0>>
 MkOp(g, d, q, p, h, c, b, cf) ==
@@ -248,6 +251,8 @@ IsOpDesc(x) ==
         x = MkOp("query+header+cookie", d, q, None3, h, c, None3, Cfg0)
   \/ \E d \in OpDialects \cap D3, h \in {h \in HeaderIdx : h[1] # 0 /\ h[2] \in {1, 6} /\ h[3] = 0}, c \in CookieIdx \ {None3} :      \* locations of different negatability
         x = MkOp("header+cookie", d, None3, None3, h, c, None3, Cfg0)
+  \/ Family = "c03o" /\ \E d \in OpDialects, it \in Items \ {ItemInline}, q \in {q \in QueryIdx : q[3] = 0 /\ (q[1] = 0 \/ q[2] \in {1, 6})}, b \in {None3, <<2, 1, 0>>} :   \* path-item shapes
+        x = [MkOp("path-item", d, q, None3, None3, None3, b, Cfg0) EXCEPT !.item = it]
   \/ Family # "c03o" /\ \E a \in {2, 6}, cf \in Cfgs : x = MkOp("config", "3.0", <<2, a, 0>>, None3, <<2, a, 0>>, None3, <<2, 1, 0>>, cf)
 
 (* Histories (C03): the coverage cases of operation A, then of operation B, generated in ONE process (labels are objects that *)
@@ -357,7 +362,7 @@ C03_Value(o) ==      \* o = [defs, schema, dia, value, mode, steps, exempt]; res
        ELSE "ok"           \* (invalidity undecided => the manner of the violation is undecided too)
 (* ---- C03: case level ---- *)
 C03_Case(op, c, vs) ==             \* vs = [p \in Parts |-> Verdict(op, c, p)]
-  LET structural == c.dup \/ ~c.methodDocumented
+  LET structural == c.dup \/ ~\E m \in DOMAIN op.methods : op.methods[m] = c.method      \* duplicated parameter / method not documented for the path
       someInvalid == \E p \in Parts : vs[p] = "F"
       allValid == \A p \in Parts : vs[p] = "T"
   IN IF c.exempt THEN "ok"
